@@ -1,3 +1,4 @@
+pub mod histories;
 pub mod project;
 pub mod script;
 pub mod session;
